@@ -181,11 +181,63 @@ fn op_serde(j: &Value) -> Value {
     })
 }
 
+/// Monte Carlo means over n points drawn from a seeded StdRng through generate_sample_from_rng:
+/// jacobian, and jacobian * g(k) with g = prod_e (q_e^2+m_e^2)^{w_e} exp(-alpha sum_l k_l^2), whose exact mean is (pi/alpha)^{DL/2}.
+fn op_mc(j: &Value) -> Value {
+    use rand::SeedableRng;
+    let d = j["D"].as_u64().unwrap() as usize;
+    let table = table_from_bits(&j["table"]);
+    let n = j["n"].as_u64().unwrap() as usize;
+    let seed = j["seed"].as_u64().unwrap_or(1);
+    let alpha = j.get("alpha").and_then(|v| v.as_u64()).map(b2f).unwrap_or(1.0);
+    let weights: Vec<f64> = table.tropical_graph.topology.iter().map(|e| e.weight).collect();
+    let sig = get_sig(j);
+    let st = TropicalSamplingSettings { matrix_stability_test: None, print_debug_info: false, return_metadata: false };
+    with_d6!(d, D, {
+        let gen = SampleGenerator::<D>::verif_from_parts(sig.clone(), table);
+        let ed = edge_data::<D>(j);
+        let logger = CaptureLogger::new();
+        let mut rng = rand::rngs::StdRng::seed_from_u64(seed);
+        let (mut s1, mut s2, mut g1, mut g2) = (0.0f64, 0.0f64, 0.0f64, 0.0f64);
+        let (mut ok, mut err, mut nonfinite) = (0usize, 0usize, 0usize);
+        let (mut jmin, mut jmax) = (f64::INFINITY, 0.0f64);
+        for _ in 0..n {
+            match gen.generate_sample_from_rng(ed.clone(), &st, &mut rng, &logger) {
+                Err(_) => err += 1,
+                Ok(s) => {
+                    let jac = s.jacobian;
+                    let mut g = 1.0f64;
+                    for (e, (mass, shift)) in ed.iter().enumerate() {
+                        let mut q2 = 0.0;
+                        for i in 0..D {
+                            let mut c = shift[i];
+                            for (l, k) in s.loop_momenta.iter().enumerate() { c += sig[e][l] as f64 * k[i]; }
+                            q2 += c * c;
+                        }
+                        let m = mass.unwrap_or(0.0);
+                        g *= (q2 + m * m).powf(weights[e]);
+                    }
+                    let k2: f64 = s.loop_momenta.iter().map(|k| k.squared()).sum();
+                    let gj = jac * g * (-alpha * k2).exp();
+                    if !(jac.is_finite() && gj.is_finite()) { nonfinite += 1; continue; }
+                    ok += 1;
+                    s1 += jac; s2 += jac * jac; g1 += gj; g2 += gj * gj;
+                    jmin = jmin.min(jac); jmax = jmax.max(jac);
+                }
+            }
+        }
+        json!({"status": "ok", "n": n, "ok": ok, "err": err, "nonfinite": nonfinite,
+               "sum_jac": f2b(s1), "sumsq_jac": f2b(s2), "sum_gj": f2b(g1), "sumsq_gj": f2b(g2),
+               "jac_min": f2b(jmin), "jac_max": f2b(jmax)})
+    })
+}
+
 pub fn handle_extra(op: &str, j: &Value) -> Value {
     match op {
         "rng" => op_rng(j),
         "threads" => op_threads(j),
         "serde" => op_serde(j),
+        "mc" => op_mc(j),
         other => json!({"error": format!("unknown op {other}")}),
     }
 }
